@@ -203,5 +203,69 @@ def onesPreFix (W mx n : Nat) : M Rep :=
   else if n < 2 * W then pure (fromDword (onesWord W) (onesWord (n - W)))
   else onesLarge W mx n
 
+-- ------------------------------------------------------------------ static-backed values
+
+/-- result of `Repr::from_static_words`: an ordinary inline value, or a value whose `data.heap`
+    points into a `static` word array (`|capacity| = len ≥ 3`, no allocation of ours) -/
+inductive StaticOut where
+  | value (r : Rep)
+  | stat (ws : List Nat)
+  deriving DecidableEq, Repr
+
+/-- `Repr::from_static_words` — `const unsafe fn`, repr.rs:290.  The two `assert!`s (repr.rs:295
+    `hi > 0`, repr.rs:301 "the array input must be normalized") are compile errors in the `static`
+    initialisers the macros generate.  `capacity = NonZeroIsize::new_unchecked(len)` with `len ≥ 3`. -/
+def fromStaticWords (ws : List Nat) : M StaticOut :=
+  match ws with
+  | [] => pure (.value (fromWord 0))
+  | [w] => pure (.value (fromWord w))
+  | [lo, hi] => if hi > 0 then pure (.value (fromDword lo hi)) else assertFail "repr.rs:295 assert"
+  | large =>
+    if large.getLast? = some 0 then assertFail "repr.rs:301 assert" else pure (.stat large)
+
+/-- `<Repr as Clone>::clone` of a static-backed value (`|capacity| = len ≥ 3`, so the heap arm,
+    repr.rs:480-487): the source slice is the `static` array — outside the ledger -/
+def cloneStatic (mx : Nat) (ws : List Nat) (neg : Bool) : M Rep := do
+  let nb ← allocate mx ws.length
+  let nb ← pushSlice nb none ws
+  let n ← ofBuf "repr.rs:487 transmute" nb
+  pure (n.withSign neg)
+
+/-- the copy when the old buffer is kept, source outside the ledger -/
+def copyIntoExt (self : Rep) (sws : List Nat) (sneg : Bool) : M Rep :=
+  match self with
+  | heap id cap _ _ => do
+    emits (wr id 0 sws.length)
+    pure (heap id cap sws sneg)
+  | inline .. => fault (.ub "repr.rs:531 copy through inline data")
+
+/-- `<Repr as Clone>::clone_from(&mut self, &STATIC)`: the heap arm of `clone_from` with a source
+    slice outside the ledger -/
+def cloneFromStatic (mx : Nat) (self : Rep) (sws : List Nat) (sneg : Bool) : M Rep :=
+  let srcLen := sws.length
+  if srcLen < 3 then assertFail "repr.rs:513 debug_assert" else do
+  let realloc ← (if self.capacity < srcLen then pure true else do
+      let m ← maxCompactCapacityChecked mx srcLen
+      pure (decide (self.capacity > m)) : M Bool)
+  if realloc then do
+    releaseOld self
+    let newCap ← defaultCapacityChecked mx srcLen
+    let nid ← allocateRaw mx newCap
+    emits (wr nid 0 srcLen)
+    pure (heap nid newCap sws sneg)
+  else copyIntoExt self sws sneg
+
+/-- `Repr::into_sign_typed` — unsafe expr repr.rs:209 (`new_unchecked(abs_capacity)`, never 0), then
+    `into_typed` on the now-positive value: no assertion can fire -/
+def intoSignTyped (r : Rep) : M (Bool × Typed) := do
+  let t ← intoTyped (r.setNeg false)
+  pure (r.isNeg, t)
+
+/-- `UBig::as_ibig` (convert.rs:563) / `IBig::as_ubig` (convert.rs:695): `transmute` between
+    `&UBig` and `&IBig`, both `#[repr(transparent)]` wrappers of `Repr` — the identity on the
+    representation, no ledger event; `as_ubig` only for a positive sign -/
+def asIbig (r : Rep) : Rep := r
+def asUbig (r : Rep) : Option Rep := if r.isNeg then none else some r
+
 end Rep
 end Dashu.Model.Mem
